@@ -25,13 +25,18 @@ class DummyQueue:
     processing: set[Message] = field(default_factory=set)
     # id of an in-flight message -> the consumer that took it
     taken_by: dict[str, object] = field(default_factory=dict)
+    # id of an in-flight message taken through the delayed category -> the time it was filed under
+    taken_from: dict[str, datetime] = field(default_factory=dict)
 
     def put_back(self, msg: Message) -> None:
         """Returns an in-flight message to the category it was taken from."""
         category = getattr(self.taken_by.pop(msg.key.id_, None), "category", "NORMAL")
+        # back to the slot it was taken from: the due time of a recurring message that has not run
+        # yet must not be computed anew (that would put it off by a period)
+        slot = self.taken_from.pop(msg.key.id_, None)
         if category == "DEAD":
             self.dead.append(msg)
-        elif category == "DELAYED" and (delay := wait_until(msg.parameters)) is not None:
+        elif category == "DELAYED" and (delay := slot or wait_until(msg.parameters)) is not None:
             self.delayed.setdefault(delay, []).append(msg)
         else:
             self.simple.put_nowait(msg)
